@@ -24,7 +24,14 @@ Theorem sub_renderer_balanced :
        pop_sub st2 = Ok (sub, st3) ->
        stack st3 = stack st /\
        meta_of sub =
-       {| m_w := w; m_o := sopts tp; m_ann := ann_stack tp; m_filt := 0; m_pre := 0; m_ws := [] |}.
+       {|
+         m_w := w;
+         m_o := sopts tp;
+         m_ann := ann_stack tp;
+         m_filt := filter_depth tp;
+         m_pre := pre_depth tp;
+         m_ws := ws_stack tp
+       |}.
 Proof. exact AnnBalance.sub_renderer_balanced. Qed.
 Print Assumptions sub_renderer_balanced.
 
